@@ -311,11 +311,11 @@ CHECKS["C07"] = dict(
           "Lean's RoundTripOK, and the whole history is compared with the Lean model's run; every reported failing history is re-confirmed "
           "in a fresh interpreter. Grids with unused nodes / an isolated first face are generated and EVERY carried connectivity table of the "
           "re-opened grid is compared entry by entry (Lean C07.tables); the reader model standardises by the start_index attribute "
-          "(standardize_zero: an explicit 0 shifts nothing; falsy_start_index_shifts is the counterexample for a reader that treats 0 as absent). Cross-model agreement with C01's Model/Readers: ugrid_readers_agree / exodus_readers_agree / scrip_readers_agree (C07's reader side and C01's decoders give the same table/faces/nodes for EVERY input, no hypotheses), export_is_c01_dialect, and the three round trips re-stated through C01's decoders (ugrid_rt_via_c01, exodus_rt_perm_via_c01, exodus_single_block_via_c01, scrip_rt_via_c01)."),
-    note=_TB + "Modelled, not verified: netCDF4/xarray serialisation (xarray's .encoding is not modelled; writability of exports of file-sourced grids is decided by the to_netcdf -> open_grid leg on the sample files), Dataset.rename/copy, NumPy indexing, float conversions "
+          "(standardize_zero: an explicit 0 shifts nothing; falsy_start_index_shifts is the counterexample for a reader that treats 0 as absent). Cross-model agreement with C01's Model/Readers: ugrid_readers_agree / exodus_readers_agree / scrip_readers_agree (C07's reader side and C01's decoders give the same table/faces/nodes for EVERY input, no hypotheses), export_is_c01_dialect, and the three round trips re-stated through C01's decoders (ugrid_rt_via_c01, exodus_rt_perm_via_c01, exodus_single_block_via_c01, scrip_rt_via_c01). exodus_rt_perm_total / exodus_single_block_total: with an element type for every face size (regenerated EXODUS_GENERIC_FROM, repair 679871d4) the Exodus round trip has no face-size hypothesis. export_writable: xarray's .encoding is a field of the model's dataset with to_netcdf's conflict rule; for every dataset whose only attribute/encoding clashes are fill declarations the repaired UGRID export is writable (as-is counterexample asis_stale_encoding_not_writable); the harness observes .encoding of every variable and Lean judges the conflict. Grids also arise as the re-opened file of an earlier UGRID/Exodus/SCRIP export (unused first nodes included)."),
+    note=_TB + "Modelled, not verified: netCDF4/xarray serialisation (writing the bytes remains tested only), Dataset.rename/copy, NumPy indexing, float conversions "
          "(lon/lat<->xyz are parameters with a stated inverse hypothesis); positions are compared through the nearest original node within 1e-7. "
          "Round trips are stated for the readers named in the theorems (all-blocks Exodus reader; SCRIP reader reading trailing repeats as "
-         "padding). Known finding: Exodus element types exist only for faces of 2..8 corners (a 9-gon raises KeyError).",
+         "padding). No known finding left (Exodus element types for > 8 corners repaired by 679871d4).",
     technique="Lean 4 theorems (history induction, regenerated tables) over a hand model with repair switches + differential correspondence with Lean-evaluated spec",
 )
 
